@@ -702,3 +702,127 @@ Proof.
       apply Nat.ltb_ge in Ee. apply Nat.leb_gt in El.
       eapply IH; [| |exact E]; [rewrite skipn_length; lia|exact El].
 Qed.
+
+(* ================================================================ E. the projection node on top:
+   ProjectionPlan.Batch() is one Batch() of the scan node and returns as many rows; so the polls
+   of the FINAL plan of a SELECT without aggregate / ORDER BY / LIMIT are those of its scan. *)
+
+Lemma poll_loop_map : forall (St1 St2 X1 X2 : Type) (p1 : St1 -> rprog (X1 * St1)) (p2 : St2 -> rprog (X2 * St2))
+    (e1 : X1 -> bool) (e2 : X2 -> bool) (h : St1 -> St2) (g : X1 -> X2),
+  (forall st s, run exec_req (rd (p2 (h st))) s =
+                match run exec_req (rd (p1 st)) s with
+                | (Ok (x, st'), s') => (Ok (g x, h st'), s')
+                | (Err e, s') => (Err e, s')
+                end) ->
+  (forall x, e2 (g x) = e1 x) ->
+  forall f st s acc,
+  poll_loop p2 e2 f (h st) s (map (fun p => (fst p, g (snd p))) acc) =
+  match poll_loop p1 e1 f st s acc with
+  | (Ok ps, s') => (Ok (map (fun p => (fst p, g (snd p))) ps), s')
+  | (Err e, s') => (Err e, s')
+  end.
+Proof.
+  intros St1 St2 X1 X2 p1 p2 e1 e2 h g Hp He. induction f as [|f IH]; intros st s acc; cbn [poll_loop]; [reflexivity|].
+  rewrite Hp. destruct (run exec_req (rd (p1 st)) s) as [[[x st']|e] s']; [|reflexivity].
+  rewrite He. destruct (e1 x).
+  - rewrite map_app. reflexivity.
+  - rewrite <- IH, map_app. reflexivity.
+Qed.
+
+Section ProjNode.
+Variable remember_end : bool.
+Variable flt : kvp -> bool.
+Variable gkey : kvp -> bytes.
+Variables (B fuel : nat).
+
+Lemma proj_poll_run : forall c st s,
+  run exec_req (rd (f_poll remember_end flt gkey B fuel BatchMode (FProj c) (FSProj st))) s =
+  match run exec_req (rd (plan_batch remember_end flt B fuel c st)) s with
+  | (Ok (rows, st'), s') => (Ok (List.length rows, FSProj st'), s')
+  | (Err e, s') => (Err e, s')
+  end.
+Proof.
+  intros c st s. cbn [f_poll f_batch]. rewrite !run_rd_bind.
+  destruct (run exec_req (rd (plan_batch remember_end flt B fuel c st)) s) as [[[rows st']|e] s']; [|reflexivity].
+  unfold rd. cbn [lift run fst snd]. unfold frows. rewrite repeat_length. reflexivity.
+Qed.
+
+Lemma proj_build_run : forall c s,
+  run exec_req (rd (select_build (FProj c))) s =
+  match run exec_req (rd (plan_build c)) s with
+  | (Ok st, s') => (Ok (FSProj st), s')
+  | (Err e, s') => (Err e, s')
+  end.
+Proof.
+  intros c s. unfold select_build, plan_build. cbn [fstate0 f_init]. rewrite !run_rd_bind.
+  destruct (run exec_req (rd (plan_init c (pstate0 c))) s) as [[st1|e] s1]; [|reflexivity].
+  unfold rd at 1. cbn [lift run f_init]. rewrite run_rd_bind.
+  destruct (run exec_req (rd (plan_init c st1)) s1) as [[st2|e] s2]; reflexivity.
+Qed.
+
+(* the polls of ProjectionPlan(plan) are the polls of the plan, counted *)
+Lemma proj_polls_are_scan_polls : forall c s,
+  select_polls remember_end flt gkey B fuel BatchMode (FProj c) s =
+  match scan_polls remember_end flt B fuel c s with
+  | (Ok (b, ps), s') => (Ok (b, map (fun p => (fst p, List.length (snd p))) ps), s')
+  | (Err e, s') => (Err e, s')
+  end.
+Proof.
+  intros c s. unfold select_polls, scan_polls. rewrite proj_build_run.
+  destruct (run exec_req (rd (plan_build c)) s) as [[st|e] s1]; [|reflexivity].
+  pose proof (@poll_loop_map pstate fstate (list kvp) nat (plan_batch remember_end flt B fuel c)
+                (f_poll remember_end flt gkey B fuel BatchMode (FProj c)) (@is_nil kvp) (Nat.eqb 0) FSProj (@List.length kvp)
+                (proj_poll_run c)) as M.
+  specialize (M (fun x => match x with [] => eq_refl | _ :: _ => eq_refl end) fuel st s1 []). cbn [map] in M. rewrite M.
+  destruct (poll_loop (plan_batch remember_end flt B fuel c) (@is_nil kvp) fuel st s1 []) as [[ps|e] s2]; reflexivity.
+Qed.
+
+End ProjNode.
+
+(* the batch sequence a caller polling the FINAL plan of `select <fields> where <filter>` sees *)
+Theorem proj_polls_agree_lemma :
+  forall (flt : kvp -> bool) (gkey : kvp -> bytes) (B fuel : nat) (sc : scan) (d : store) (l0 : list scall),
+  1 <= B -> List.length d + plan_keys (PScan sc) < fuel ->
+  exists l, select_polls true flt gkey B fuel BatchMode (FProj (PScan sc)) (SState d l0 None)
+            = (Ok (scan_init_calls sc ++ scan_init_calls sc,
+                   map (fun p => (fst p, List.length (snd p))) (scan_polls_spec flt B sc d)),
+               SState d (l0 ++ l) None).
+Proof.
+  intros flt gkey B fuel sc d l0 HB Hf. rewrite proj_polls_are_scan_polls.
+  destruct (@scan_polls_agree_lemma flt B fuel sc d l0 HB Hf) as [l [E _]]. rewrite E. exists l. reflexivity.
+Qed.
+
+(* ================================================================ D'. the lengths of the batch sequence *)
+
+Lemma polls_spec_after_end : forall flt B, 1 <= B -> forall f silent term,
+  List.length (polls_spec flt B f silent term [] true) <= 1.
+Proof.
+  intros flt B HB [|f] silent term; cbn [polls_spec List.length]; [lia|].
+  destruct (silent && true); [cbn; lia|].
+  destruct B as [|B']; [lia|]. cbn. lia.
+Qed.
+
+(* every Batch() call returns fewer than 2B rows; every call that is followed by at least two
+   more calls (i.e. every batch except the last non-empty one and the final empty one) returns
+   at least B rows *)
+Lemma polls_spec_lengths : forall flt B, 1 <= B -> forall f silent term (rest : list aslot) ended,
+  (ended = true -> rest = []) ->
+  Forall (fun p => List.length (snd p) < 2 * B) (polls_spec flt B f silent term rest ended) /\
+  forall i, S (S i) < List.length (polls_spec flt B f silent term rest ended) ->
+            B <= List.length (snd (nth i (polls_spec flt B f silent term rest ended) ([], []))).
+Proof.
+  intros flt B HB. induction f as [|f IH]; intros silent term rest ended He; cbn [polls_spec].
+  - split; [constructor|cbn; lia].
+  - destruct (silent && ended).
+    + split; [repeat constructor; cbn; lia|cbn; lia].
+    + destruct (batch_pass flt B (S (List.length rest)) term rest []) as [[[rows log] rest'] e] eqn:Ebp.
+      pose proof Ebp as L. apply batch_pass_length in L; [|exact HB|apply Nat.lt_succ_diag_r|cbn; lia]. destruct L as [L1 L2].
+      destruct rows as [|r0 rows]; [split; [repeat constructor; cbn; lia|cbn; lia]|].
+      assert (He' : e = true -> rest' = []) by (intros E; eapply batch_pass_end; [exact HB|exact Ebp|exact E]).
+      destruct (IH silent term rest' e He') as [F1 F2].
+      split; [constructor; [exact L1|exact F1]|].
+      intros [|i] Hi; cbn [nth snd List.length] in *.
+      * destruct e; [|apply L2; reflexivity].
+        rewrite (He' eq_refl) in Hi. pose proof (@polls_spec_after_end flt B HB f silent term). lia.
+      * apply F2. lia.
+Qed.
